@@ -18,6 +18,7 @@ import (
 
 	"github.com/projectcalico/calico/libcalico-go/lib/backend/model"
 	"github.com/projectcalico/calico/libcalico-go/lib/ipam"
+	cnet "github.com/projectcalico/calico/libcalico-go/lib/net"
 	"github.com/projectcalico/calico/zzverif/hbfs"
 	"github.com/projectcalico/calico/zzverif/vclock"
 	"github.com/projectcalico/calico/zzverif/vk"
@@ -34,6 +35,8 @@ func (e c21Ev) String() string {
 	switch e.Kind {
 	case "release":
 		return fmt.Sprintf("release addr-of-%s seq=%s handle=%s", e.H, e.Seq, e.Handle)
+	case "assignip":
+		return "assignip " + e.H + " handle=b"
 	case "advance":
 		return "advance " + e.H + "s"
 	}
@@ -245,6 +248,31 @@ func c21Apply(s *c21State, e c21Ev) {
 		seq := w.allocs()[ip].Seq
 		*m = c21Addr{Alloc: true, Handle: h, Seq: seq}
 		s.lastIP[e.H], s.lastSeq[e.H] = ip, seq
+	case "assignip":
+		// explicit assignment of one named address (to handle b): the caller chooses, so no queue-order
+		// demand on THIS call; it must not take an allocated address nor one still in cooldown, and it
+		// must remove exactly that address from the free queue (checked at the following hand-outs).
+		now := w.clock.Peek()
+		ip := e.H
+		m := s.addrs[ip]
+		h := "b"
+		err := w.ic.AssignIP(w.ctx, ipam.AssignIPArgs{IP: cnet.MustParseIP(ip), Hostname: "n1", HandleID: &h})
+		s.last = "assignip:" + errClass(err)
+		if err != nil {
+			break
+		}
+		if m.Alloc {
+			fail("assigned-address-already-allocated", fmt.Sprintf("AssignIP handed %s to %s while it is allocated to %q", ip, h, m.Handle))
+		}
+		if m.Released {
+			s.last = "assignip:reuse"
+			if elapsed := now.Sub(m.FreeSince); elapsed < cd-time.Second {
+				fail("reused-before-cooldown", fmt.Sprintf("AssignIP re-assigned %s %.1fs after its release, cooldown is %ds", ip, elapsed.Seconds(), s.cooldown))
+			}
+		}
+		seq := w.allocs()[ip].Seq
+		*m = c21Addr{Alloc: true, Handle: h, Seq: seq}
+		s.lastIP[h], s.lastSeq[h] = ip, seq
 	case "release":
 		ip, known := s.lastIP[e.H]
 		if !known {
@@ -417,14 +445,25 @@ func c21Key(s *c21State) string {
 
 func TestVerif_C21(t *testing.T) {
 	vk.Run(t, "C21", func(c *vk.Ctx) {
-		c.Rule("histories over 30 events: assign(handle a|b, or WITHOUT a handle = client n), release of the address last granted to a|b x sequence number {none, the one the client recorded, a wrong one} x handle {none, own, the other}, release-by-handle a|b, advance 300 s, advance 700 s; one block of 4 addresses (/30) and one of 2 addresses (/31); cooldown 600 s and cooldown 0; tree mode (every history) to a small depth and graph mode (de-duplicated on store projection + model + clients' memory + cooldown phase) deeper; non-trivial = state with >=1 released address")
+		c.Rule("histories over 30 events + AssignIP of each address of the block (to handle b; whatever its place in the free queue): assign(handle a|b, or WITHOUT a handle = client n), release of the address last granted to a|b x sequence number {none, the one the client recorded, a wrong one} x handle {none, own, the other}, release-by-handle a|b, advance 300 s, advance 700 s; one block of 4 addresses (/30) and one of 2 addresses (/31); cooldown 600 s and cooldown 0; tree mode (every history) to a small depth and graph mode (de-duplicated on store projection + model + clients' memory + cooldown phase) deeper; non-trivial = state with >=1 released address")
 		c.Assume("reference model written from the statement; stored time stamps are second-granular, so 'cooldown passed' and 'free for longer' are judged with one second of slack; sequential use of the client")
 		spec := func(cooldown, naddr int, graph bool, depth int) *hbfs.Spec[*c21State, c21Ev] {
 			sp := &hbfs.Spec[*c21State, c21Ev]{
 				Name:     fmt.Sprintf("C21/cooldown=%d/addrs=%d/%s", cooldown, naddr, map[bool]string{true: "graph", false: "tree"}[graph]),
 				New:      func() *c21State { return c21New(cooldown, naddr) },
 				Apply:    c21Apply,
-				Enabled:  func(*c21State, int) []c21Ev { return c21Events() },
+				Enabled: func(s *c21State, _ int) []c21Ev {
+					evs := c21Events()
+					ips := make([]string, 0, len(s.addrs))
+					for ip := range s.addrs {
+						ips = append(ips, ip)
+					}
+					sort.Strings(ips)
+					for _, ip := range ips { // AssignIP of every address of the block (head/middle/tail of the free queue)
+						evs = append(evs, c21Ev{Kind: "assignip", H: ip})
+					}
+					return evs
+				},
 				Check:    func(s *c21State, _ []c21Ev) []hbfs.Fail { f := s.fails; s.fails = nil; return f },
 				Close:    func(s *c21State) { s.w.close() },
 				Show:     func(e c21Ev) string { return e.String() },
